@@ -59,6 +59,31 @@ arguments, class attributes, error paths, rarely used variants/options, numeric 
 Both must still need something specific to manifest, be realistic, and keep the 156 tests passing.
 Name the two changes I and J (directories I/ and J/, "change": "I" / "J" in meta.json).
 """,
+ "KL": """
+ADDITIONAL GUIDANCE FOR THIS ROUND (sixth round). Five earlier rounds (200 changes) already produced: wrong masks/shifts,
+dropped resets, off-by-one bounds, equality lists missing a field, float truncation, stale caches and memo keys, fast
+paths with too-wide guards, signed/unsigned codes, byte order, pad rules, checksum folding, consistently changed
+encoder+decoder, shared default arguments, class attributes, rarely used variants/options, numeric corners, `or`-defaults
+swallowing 0, truthiness, content-dependent slips (sync words / magic numbers / 0xFF runs in payloads, sentinels),
+work moved into setters, iterator cursors, object identity of decoded parts. Do NOT repeat those. Aim this round at:
+ * CHANGE K — an INDIRECT PATH or API-SURFACE slip: code that is fine when the class is used directly but wrong when
+   reached through another route the property also covers — through a CONTAINER or WRAPPER class (VideoFormat2 ->
+   MPEGTS -> MPEGPacket, NPD -> its segment classes, Chapter 7 -> Golay, SamDecPcap -> Pcap -> iNetX, FileParser ->
+   Chapter11, pcap record -> Ethernet -> IP -> UDP), through a SUBCLASS or BASE CLASS (the IENA variants, STANAG4609 <
+   PES < MPEGPacket, the deprecated Chapter10 subclass, a `super()` call, a method overridden in one subclass only, a
+   change in the base class that matters for exactly one subclass), through the constructor-with-buffer form
+   (`Ethernet(buf)`, `IP(buf)`, `iNetX(buf)`, `IENA(buf)`), through `bytearray` / `memoryview` / subclass-of-bytes input
+   instead of `bytes`, through a property getter/setter pair, through keyword vs positional arguments, or through the
+   legacy import path.
+ * CHANGE L — a slip in EXCEPTION BEHAVIOUR or at SIZE LIMITS: the kind of exception a check raises or WHICH check fires
+   first when two are violated at once; state left behind by a call that raises and what the NEXT successful call then
+   does; inputs of exactly header size / exactly one element / zero elements; MANY elements (>= 1000 list elements,
+   >= 64 KiB payloads, element counts or lengths crossing 255 / 65535 / 2**24) where a counter field, a recursion, a
+   `range(256)`, a slice copy per element or a one-byte length silently goes wrong; the last byte / last element of a
+   maximum-size packet; two-step arithmetic that overflows an intermediate field but not the final one.
+Both must still need something specific to manifest, be realistic, and keep the 156 tests passing.
+Name the two changes K and L (directories K/ and L/, "change": "K" / "L" in meta.json).
+""",
 }
 def main():
     pair, outdir = sys.argv[1], sys.argv[2]
